@@ -122,8 +122,12 @@ class Target:
     """a CBMC/DFCC verification unit: one enforced contract over extracted functions"""
 
     def __init__(self, name, fns, prelude, enforce=None, replace=(), harness=None, loops=None, checks=None,
-                 source=None, note='', cbmc_flags=(), timeout=None, enforce_none=False, defines=(), unwind=None, enums=()):
+                 source=None, note='', cbmc_flags=(), timeout=None, enforce_none=False, defines=(), unwind=None, enums=(), pre=None):
         self.defines = list(defines)
+        # C text generated from /repo's AST (e.g. struct layouts read from class definitions, specs/C18/frame.py), emitted in
+        # front of the prelude: a string or a callable returning (text, evidence dict); run inside build() so that an
+        # extraction problem is an undecided target, never a crash of the spec
+        self.pre = pre
         self.enums = list(enums)      # (tu, qualified enum name): NVE_<enum>_<enumerator> constants are generated from /repo's AST
         self.name = name
         self.fns = fns
@@ -210,6 +214,12 @@ class Target:
             consts = astload.enum_constants(tu, qn)
             out.append(f'#define NV_ENUM_{en} 1\nenum {{ ' + ', '.join(f'NVE_{en}_{c} = {v}' for c, v in consts) + ' };')
             info.setdefault('enums_from_source', {})[qn] = consts
+        if self.pre is not None:
+            gen = self.pre() if callable(self.pre) else self.pre
+            if isinstance(gen, tuple):
+                gen, ginfo = gen
+                info['generated_from_source'] = ginfo
+            out.append(gen)
         out.append(f'#include "{os.path.join(VERIF, self.prelude)}"')
         # NV_ARG_<c_name>_<k>: the name the source gives the k-th parameter (self first): contracts written with these
         # macros do not depend on how the library spells its parameter names
